@@ -7,8 +7,9 @@ def _hist(fn, quick, thorough_n, bound, **kw):
         from harness import histories as H
 
         n = thorough_n if thorough else quick
+        del H.SAMPLES[:]
         v, cases = getattr(H, fn)(seed, n, **kw)
-        return dict(cases=cases, violations=v, known={}, bound=bound.format(n=n, seed=seed))
+        return dict(cases=cases, violations=v, known={}, bound=bound.format(n=n, seed=seed), samples=list(H.SAMPLES))
 
     return run
 
@@ -18,6 +19,7 @@ def _prog(fn, quick, thorough_n, bound, **kw):
         from harness import programs as P
 
         n = thorough_n if thorough else quick
+        del P.SAMPLES[:]
         v, cases = getattr(P, fn)(seed, n, **kw)
         known, unknown = {}, []
         for x in v:
@@ -27,7 +29,7 @@ def _prog(fn, quick, thorough_n, bound, **kw):
                 known[k] = known.get(k, 0) + 1
             else:
                 unknown.append(x)
-        return dict(cases=cases, violations=unknown, known=known, bound=bound.format(n=n, seed=seed))
+        return dict(cases=cases, violations=unknown, known=known, bound=bound.format(n=n, seed=seed), samples=list(P.SAMPLES))
 
     return run
 
